@@ -317,6 +317,8 @@ pub struct WorkerCtx {
     pub t: usize,
     frames: Vec<RFrame>,
     next_flat: usize,
+    /// events built ahead of their use (`PrepEvent`)
+    prepared: std::collections::HashMap<u32, Event>,
 }
 
 struct CallPlan {
@@ -609,9 +611,13 @@ pub fn exec_op(ctx: &mut WorkerCtx, op: &Op) {
                     })
                 });
             } else {
-                let ev = mk_event(*e, *np, *k0);
+                let ev = ctx.prepared.remove(e).unwrap_or_else(|| mk_event(*e, *np, *k0));
                 with_span(*span, |s| s.add_event(ev));
             }
+        }
+        Op::PrepEvent { e, np, k0 } => {
+            let ev = mk_event(*e, *np, *k0);
+            ctx.prepared.insert(*e, ev);
         }
         Op::LAddProps { n, k0 } => {
             if *n == 1 {
@@ -630,7 +636,8 @@ pub fn exec_op(ctx: &mut WorkerCtx, op: &Op) {
                     (*k0..*k0 + *np as u32).map(|k| (std::borrow::Cow::from(key(k)), std::borrow::Cow::from(val(k)))).collect::<Vec<_>>()
                 })
             } else {
-                LocalSpan::add_event(mk_event(*e, *np, *k0))
+                let ev = ctx.prepared.remove(e).unwrap_or_else(|| mk_event(*e, *np, *k0));
+                LocalSpan::add_event(ev)
             }
         }
         Op::LWithProps { n, k0 } => {
@@ -1027,7 +1034,7 @@ fn worker_main(t: usize) {
         let r = Span::root("warm", SpanContext::new(TraceId(1), SpanId(1)).sampled(false));
         drop(r);
     }
-    let mut ctx = WorkerCtx { t, frames: Vec::new(), next_flat: 0 };
+    let mut ctx = WorkerCtx { t, frames: Vec::new(), next_flat: 0, prepared: std::collections::HashMap::new() };
     {
         let mut g = lock(&CTL);
         let c = ctl(&mut g);
